@@ -26,7 +26,7 @@ def run(ctx, rep):
     rep.rule("R19-APPLY", "V1/V2: (datum?) -> redeemer -> context; V3: context only", floor=2)
     rep.rule("R19-THREAD", "the caller's budget reaches every evaluation in do_eval_redeemer, and every eval_redeemer call of the loop gets &remaining_budget", floor=6)
     rep.rule("R19-BUDGET", "after each redeemer the remaining budget is decremented in both dimensions (cpu<->steps, mem<->mem) by the units of the redeemer the evaluation returned, which is also what is reported", floor=4)
-    rep.rule("R19-FAIL", "a machine error is returned as Err before a result is built", floor=1)
+    rep.rule("R19-FAIL", "a machine error, and a version-aware failed verdict (V3: non-unit result), are returned as Err before a result is built", floor=2)
     rep.rule("R19-ORDER", "collections the ledger orders are sorted when the script context is built (spec table)", floor=8)
     rep.rule("R19-POINTER", "every sort of transaction inputs that yields positions keys on (transaction_id, index); reward accounts and voters use the shared comparators", floor=3)
     rep.rule("R19-LOOKUP", "DataLookupTable::from_transaction visits every witness and every resolved input: no break / return inside its loops", floor=1)
@@ -173,6 +173,20 @@ def r_fail(sh, rep):
         if "Redeemer{" in s and idx_new is None and "ExUnits" in s:
             idx_new = i
     rep.check(idx_err is not None and (idx_new is None or idx_err < idx_new), "R19-FAIL", "do_eval_redeemer#machine-error-is-Err", sh.loc(EV, f), "do_eval_redeemer must return Err(..) when eval_result.result() is an error, before it builds the evaluated redeemer")
+    # a script can fail without a machine error: under Plutus V3 the script must evaluate to unit. EvalResult::failed(allow_bool,
+    # language) is the evaluator's statement of the ledger's success condition; the simulation must consult it (strictly:
+    # allow_bool = false, the `True` shortcut exists for Aiken's own tests only) with this redeemer's language, and
+    # return Err before the evaluated redeemer is built.
+    langs = [i["pat"].get("name") for i in f["sig"]["inputs"] if isinstance(i.get("pat"), dict) and "Language" in (i.get("ty") or "")]
+    idx_failed = None
+    strict = lang_ok = False
+    for i, st in enumerate(stmts):
+        for n in walk(st):
+            if n.get("k") == "MethodCall" and n["m"] == "failed" and sh.nsrc(EV, n["recv"]) == "eval_result" and "returnErr(" in sh.nsrc(EV, st):
+                idx_failed = i if idx_failed is None else idx_failed
+                strict = len(n["args"]) == 2 and sh.nsrc(EV, n["args"][0]) == "false"
+                lang_ok = len(n["args"]) == 2 and re.sub(r"^&", "", sh.nsrc(EV, n["args"][1])) in langs
+    rep.check(idx_failed is not None and strict and lang_ok and (idx_new is None or idx_failed < idx_new), "R19-FAIL", "do_eval_redeemer#version-aware-verdict", sh.loc(EV, f), "do_eval_redeemer reports a redeemer as evaluated whenever the machine did not error; it must also return Err when `eval_result.failed(false, <this redeemer's language>)` — a Plutus V3 script that evaluates to anything but unit is a failed script (found: failed() consulted %s, strict %s, language %s)" % (idx_failed is not None, strict, lang_ok), sample={"languages": langs})
 
 
 # spec table (ledger: the script context presents these collections in canonical order). helper -> how the order is established
